@@ -159,6 +159,8 @@ type RunOpts struct {
 	// log line by line (write-fault child runs).
 	FailWrite int
 	EvLog     *os.File
+	// SearchFault > 0: the first Search stream of the vault breaks after SearchFault-1 results (see Lab.searchFault).
+	SearchFault int
 	// NoWait skips waiting (used by recovery runs where some plans are not expected to be resumed).
 	HardLimit time.Duration
 }
@@ -209,6 +211,7 @@ func Run(sc *Scenario, o RunOpts) *RunResult {
 	l := newLab(sc)
 	l.onWriteEnd = o.OnWriteEnd
 	l.failWrite, l.evlog = o.FailWrite, o.EvLog
+	l.searchFault = o.SearchFault
 	rr := &RunResult{Sc: sc, Lab: l}
 	ctx := context.Background()
 
